@@ -35,6 +35,23 @@ def handle : List String → Option String
     match detCrowdingCall (fun i => bits.getD i 0 == 1) pop target with
     | none => some "err"
     | some out => some s!"ok {ids out}"
+  | ["probcrowd", pops, ts, cl, coins] => do
+    -- `coins`: outcome of `np.random.random() < prob` per call index 0 .. (2 per pair), `2` = the call drew no number
+    let pop ← (words pops).mapM indv?; let target ← ts.toNat?
+    let bits ← nats? cl
+    let cs ← nats? coins
+    match probCrowdingCall (fun k => cs.getD k 0 == 1) (fun i => bits.getD i 0 == 1) pop target with
+    | none => some "err"
+    | some out => some s!"ok {ids out}"
+  | "probtourn" :: pops :: samples => do
+    -- each sample: member indices, then `/`, then the index returned by searchsorted
+    let pop ← (words pops).mapM indv?
+    let ss ← samples.mapM fun s => match s.splitOn "/" with
+      | [a, b] => do let m ← nats? a; let i ← b.trimAscii.toString.toNat?; some (m, i)
+      | _ => none
+    match probTournament pop ss with
+    | none => some "err"
+    | some w => some s!"ok {ids w}"
   | _ => none
 
 end Drv.OpsSelection
